@@ -215,9 +215,9 @@ def run_shard(spec, tier, seed, budget_s):
             sh.count('obs.det_renders')
     # ---- graph workload
     rng = random.Random(f'{seed}-graphs-{i}')
-    model_only(sh, random.Random(f'{seed}-modelonly-{i}'), {'quick': 25, 'thorough': 600}[tier])
+    model_only(sh, random.Random(f'{seed}-modelonly-{i}'), {'quick': 80, 'thorough': 1000}[tier])
     k = 0
-    target = {'quick': 150, 'thorough': 4000}[tier]
+    target = {'quick': 400, 'thorough': 5000}[tier]
     while k < target and not sh.out_of_time():
         k += 1
         shape = gen.GRAPH_SHAPES[k % len(gen.GRAPH_SHAPES)]
